@@ -38,6 +38,8 @@ func flatten(iovs [][]byte) []byte {
 
 // Read is read(2).
 func Read(fd int, p []byte) (int, error) {
+	defer vsched.Restore(vsched.EnterHarness())
+
 	vsched.Yield("sys:read")
 	k := kern()
 	e, errno := k.frameworkFd("read", fd)
@@ -111,6 +113,8 @@ func (k *Kernel) etRegistered(f *File) bool {
 
 // Readv is readv(2).
 func Readv(fd int, iovs [][]byte) (int, error) {
+	defer vsched.Restore(vsched.EnterHarness())
+
 	n := 0
 	for _, b := range iovs {
 		n += len(b)
@@ -197,12 +201,16 @@ func (k *Kernel) doWrite(call string, fd int, p []byte, niov int) (int, error) {
 
 // Write is write(2).
 func Write(fd int, p []byte) (int, error) {
+	defer vsched.Restore(vsched.EnterHarness())
+
 	vsched.Yield("sys:write")
 	return kern().doWrite("write", fd, p, 1)
 }
 
 // Writev is writev(2).
 func Writev(fd int, iovs [][]byte) (int, error) {
+	defer vsched.Restore(vsched.EnterHarness())
+
 	vsched.Yield("sys:writev")
 	k := kern()
 	if len(iovs) > 1 {
@@ -213,6 +221,8 @@ func Writev(fd int, iovs [][]byte) (int, error) {
 
 // Close is close(2).
 func Close(fd int) error {
+	defer vsched.Restore(vsched.EnterHarness())
+
 	vsched.Yield("sys:close")
 	k := kern()
 	e, errno := k.frameworkFd("close", fd)
@@ -242,6 +252,8 @@ func Close(fd int) error {
 
 // Socket is socket(2).
 func Socket(domain, typ, proto int) (int, error) {
+	defer vsched.Restore(vsched.EnterHarness())
+
 	vsched.Yield("sys:socket")
 	k := kern()
 	if fe, _ := k.fault("socket", nil); fe != 0 {
@@ -268,6 +280,8 @@ func (k *Kernel) sockFile(call string, fd int) (*File, Errno) {
 
 // Bind is bind(2).
 func Bind(fd int, sa unix.Sockaddr) error {
+	defer vsched.Restore(vsched.EnterHarness())
+
 	vsched.Yield("sys:bind")
 	k := kern()
 	f, errno := k.sockFile("bind", fd)
@@ -320,6 +334,8 @@ func Bind(fd int, sa unix.Sockaddr) error {
 
 // Listen is listen(2).
 func Listen(fd int, backlog int) error {
+	defer vsched.Restore(vsched.EnterHarness())
+
 	vsched.Yield("sys:listen")
 	k := kern()
 	f, errno := k.sockFile("listen", fd)
@@ -341,6 +357,8 @@ func Listen(fd int, backlog int) error {
 // Connect is connect(2); the engine never connects sockets itself on the
 // paths the simulation drives, so this reports ECONNREFUSED.
 func Connect(fd int, sa unix.Sockaddr) error {
+	defer vsched.Restore(vsched.EnterHarness())
+
 	vsched.Yield("sys:connect")
 	k := kern()
 	if _, errno := k.sockFile("connect", fd); errno != 0 {
@@ -352,6 +370,8 @@ func Connect(fd int, sa unix.Sockaddr) error {
 
 // Accept4 is accept4(2).
 func Accept4(fd int, flags int) (int, unix.Sockaddr, error) {
+	defer vsched.Restore(vsched.EnterHarness())
+
 	vsched.Yield("sys:accept")
 	k := kern()
 	f, errno := k.sockFile("accept", fd)
@@ -405,10 +425,15 @@ func Accept4(fd int, flags int) (int, unix.Sockaddr, error) {
 }
 
 // Accept is accept(2).
-func Accept(fd int) (int, unix.Sockaddr, error) { return Accept4(fd, 0) }
+func Accept(fd int) (int, unix.Sockaddr, error) {
+	defer vsched.Restore(vsched.EnterHarness())
+	return Accept4(fd, 0)
+}
 
 // EpollCreate1 is epoll_create1(2).
 func EpollCreate1(flag int) (int, error) {
+	defer vsched.Restore(vsched.EnterHarness())
+
 	vsched.Yield("sys:epoll_create")
 	k := kern()
 	if fe, _ := k.fault("epoll_create", nil); fe != 0 {
@@ -425,6 +450,8 @@ func EpollCreate1(flag int) (int, error) {
 
 // Eventfd is eventfd2(2).
 func Eventfd(initval uint, flags int) (int, error) {
+	defer vsched.Restore(vsched.EnterHarness())
+
 	vsched.Yield("sys:eventfd")
 	k := kern()
 	if fe, _ := k.fault("eventfd", nil); fe != 0 {
@@ -452,6 +479,8 @@ func (k *Kernel) epollOf(call string, epfd int) (*Epoll, Errno) {
 
 // EpollCtl is epoll_ctl(2).
 func EpollCtl(epfd int, op int, fd int, event *unix.EpollEvent) error {
+	defer vsched.Restore(vsched.EnterHarness())
+
 	vsched.Yield("sys:epoll_ctl")
 	k := kern()
 	ep, errno := k.epollOf("epoll_ctl", epfd)
@@ -507,6 +536,8 @@ func (k *Kernel) epollWait(epfd int, max int, msec int) ([]readyEvent, Errno) {
 
 // EpollWait is epoll_wait(2).
 func EpollWait(epfd int, events []unix.EpollEvent, msec int) (int, error) {
+	defer vsched.Restore(vsched.EnterHarness())
+
 	vsched.Yield("sys:epoll_wait")
 	k := kern()
 	evs, errno := k.epollWait(epfd, len(events), msec)
@@ -537,6 +568,8 @@ type rawEpollEvent struct {
 //
 //go:nosplit
 func Syscall6(trap, a1, a2, a3, a4, a5, a6 uintptr) (r1, r2 uintptr, err unix.Errno) {
+	defer vsched.Restore(vsched.EnterHarness())
+
 	var ev [12]byte
 	if trap == unix.SYS_EPOLL_CTL && a4 != 0 {
 		ev = *(*[12]byte)(unsafe.Pointer(a4)) //nolint:govet
@@ -551,6 +584,8 @@ func Syscall6(trap, a1, a2, a3, a4, a5, a6 uintptr) (r1, r2 uintptr, err unix.Er
 //
 //go:nosplit
 func RawSyscall6(trap, a1, a2, a3, a4, a5, a6 uintptr) (r1, r2 uintptr, err unix.Errno) {
+	defer vsched.Restore(vsched.EnterHarness())
+
 	var ev [12]byte
 	if trap == unix.SYS_EPOLL_CTL && a4 != 0 {
 		ev = *(*[12]byte)(unsafe.Pointer(a4)) //nolint:govet
@@ -599,6 +634,8 @@ func syscall6(trap, a1 uintptr, a2 unsafe.Pointer, a3, a4 uintptr, ev [12]byte) 
 
 // Recvfrom is recvfrom(2).
 func Recvfrom(fd int, p []byte, flags int) (int, unix.Sockaddr, error) {
+	defer vsched.Restore(vsched.EnterHarness())
+
 	vsched.Yield("sys:recvfrom")
 	k := kern()
 	f, errno := k.sockFile("recvfrom", fd)
@@ -620,6 +657,8 @@ func Recvfrom(fd int, p []byte, flags int) (int, unix.Sockaddr, error) {
 
 // Sendto is sendto(2).
 func Sendto(fd int, p []byte, flags int, to unix.Sockaddr) error {
+	defer vsched.Restore(vsched.EnterHarness())
+
 	vsched.Yield("sys:sendto")
 	k := kern()
 	f, errno := k.sockFile("sendto", fd)
@@ -641,6 +680,8 @@ func Sendto(fd int, p []byte, flags int, to unix.Sockaddr) error {
 
 // Send is send(2) on a connected socket.
 func Send(fd int, p []byte, flags int) error {
+	defer vsched.Restore(vsched.EnterHarness())
+
 	vsched.Yield("sys:send")
 	k := kern()
 	f, errno := k.sockFile("send", fd)
@@ -685,6 +726,8 @@ func (k *Kernel) dup(call string, fd int) (int, Errno) {
 
 // FcntlInt is fcntl(2) with an integer argument.
 func FcntlInt(fd uintptr, cmd, arg int) (int, error) {
+	defer vsched.Restore(vsched.EnterHarness())
+
 	vsched.Yield("sys:fcntl")
 	k := kern()
 	switch cmd {
@@ -702,16 +745,22 @@ func FcntlInt(fd uintptr, cmd, arg int) (int, error) {
 
 // Dup is dup(2) (syscall.Dup in the fallback path).
 func Dup(fd int) (int, error) {
+	defer vsched.Restore(vsched.EnterHarness())
+
 	vsched.Yield("sys:dup")
 	n, e := kern().dup("dup", fd)
 	return n, rerr(e)
 }
 
 // CloseOnExec is a no-op in the simulation.
-func CloseOnExec(fd int) {}
+func CloseOnExec(fd int) {
+	defer vsched.Restore(vsched.EnterHarness())
+}
 
 // SetNonblock records the flag.
 func SetNonblock(fd int, nonblocking bool) error {
+	defer vsched.Restore(vsched.EnterHarness())
+
 	k := kern()
 	if e := k.fds[fd]; e != nil {
 		e.file.nonblk = nonblocking
@@ -740,6 +789,8 @@ func (k *Kernel) setopt(fd int, name string, v int) error {
 
 // SetsockoptInt records the options the simulation models and accepts the rest.
 func SetsockoptInt(fd, level, opt int, value int) error {
+	defer vsched.Restore(vsched.EnterHarness())
+
 	k := kern()
 	name := fmt.Sprintf("opt-%d-%d", level, opt)
 	if level == unix.SOL_SOCKET {
@@ -758,6 +809,8 @@ func SetsockoptInt(fd, level, opt int, value int) error {
 }
 
 func SetsockoptLinger(fd, level, opt int, l *unix.Linger) error {
+	defer vsched.Restore(vsched.EnterHarness())
+
 	k := kern()
 	v := 0
 	if l != nil && l.Onoff != 0 && l.Linger == 0 {
@@ -766,24 +819,39 @@ func SetsockoptLinger(fd, level, opt int, l *unix.Linger) error {
 	return k.setopt(fd, "linger0", v)
 }
 func SetsockoptInet4Addr(fd, level, opt int, value [4]byte) error {
+	defer vsched.Restore(vsched.EnterHarness())
+
 	return kern().setopt(fd, fmt.Sprintf("opt-%d-%d", level, opt), 1)
 }
 func SetsockoptIPv6Mreq(fd, level, opt int, mreq *unix.IPv6Mreq) error {
+	defer vsched.Restore(vsched.EnterHarness())
+
 	return kern().setopt(fd, fmt.Sprintf("opt-%d-%d", level, opt), 1)
 }
 func SetsockoptIPMreq(fd, level, opt int, mreq *unix.IPMreq) error {
+	defer vsched.Restore(vsched.EnterHarness())
+
 	return kern().setopt(fd, fmt.Sprintf("opt-%d-%d", level, opt), 1)
 }
 func SetsockoptByte(fd, level, opt int, value byte) error {
+	defer vsched.Restore(vsched.EnterHarness())
+
 	return kern().setopt(fd, fmt.Sprintf("opt-%d-%d", level, opt), int(value))
 }
 func SetsockoptString(fd, level, opt int, s string) error {
+	defer vsched.Restore(vsched.EnterHarness())
+
 	return kern().setopt(fd, fmt.Sprintf("opt-%d-%d", level, opt), 1)
 }
-func BindToDevice(fd int, device string) error { return kern().setopt(fd, "bindtodevice", 1) }
+func BindToDevice(fd int, device string) error {
+	defer vsched.Restore(vsched.EnterHarness())
+	return kern().setopt(fd, "bindtodevice", 1)
+}
 
 // RemoveAll replaces os.RemoveAll in the listener: it unlinks a unix-socket path.
 func RemoveAll(path string) error {
+	defer vsched.Restore(vsched.EnterHarness())
+
 	k := kern()
 	k.Removed = append(k.Removed, path)
 	delete(k.unixPaths, path)
@@ -797,6 +865,8 @@ func (k *Kernel) UnixPathExists(path string) bool { return k.unixPaths[path] }
 // GetsockoptInt is getsockopt(2) for integer options. SO_ERROR returns and
 // clears the pending socket error; options set earlier read back; the rest is 0.
 func GetsockoptInt(fd, level, opt int) (int, error) {
+	defer vsched.Restore(vsched.EnterHarness())
+
 	vsched.Yield("sys:getsockopt")
 	k := kern()
 	e, errno := k.frameworkFd("getsockopt", fd)
@@ -835,6 +905,8 @@ func GetsockoptInt(fd, level, opt int) (int, error) {
 
 // Getsockname is getsockname(2).
 func Getsockname(fd int) (unix.Sockaddr, error) {
+	defer vsched.Restore(vsched.EnterHarness())
+
 	k := kern()
 	e, errno := k.frameworkFd("getsockname", fd)
 	if e == nil {
@@ -855,6 +927,8 @@ func Getsockname(fd int) (unix.Sockaddr, error) {
 
 // Getpeername is getpeername(2).
 func Getpeername(fd int) (unix.Sockaddr, error) {
+	defer vsched.Restore(vsched.EnterHarness())
+
 	k := kern()
 	e, errno := k.frameworkFd("getpeername", fd)
 	if e == nil {
@@ -873,6 +947,8 @@ func Getpeername(fd int) (unix.Sockaddr, error) {
 
 // Shutdown is shutdown(2) on a stream socket.
 func Shutdown(fd int, how int) error {
+	defer vsched.Restore(vsched.EnterHarness())
+
 	vsched.Yield("sys:shutdown")
 	k := kern()
 	e, errno := k.frameworkFd("shutdown", fd)
